@@ -346,3 +346,7 @@ FUNCTIONS = [P + f for f in (
     "at_end", "peek", "previous", "advance", "parse", "expression", "assignment", "tilde", "random_effect",
     "comparison", "addition", "multiplication", "interaction", "multiple_interaction", "unary", "call",
     "finishcall", "primary")]
+
+
+ASSUMPTIONS = ['Parser.check/match/consume and utils.listify are inlined into their callers (no separate contract)',
+               'termination of the mutually recursive nonterminals is not proved']
